@@ -44,6 +44,9 @@ def cont(vals, kind):
         return tuple(vals)
     if kind == "nd":
         return np.array(vals, dtype=float)
+    if kind == "ndmasked":
+        # a masked array has the length of its data, masked entries included
+        return np.ma.masked_array(np.array(vals, dtype=float), mask=[i % 2 == 0 for i in range(len(vals))])
     return np.array([int(v) for v in vals], dtype=np.int64)
 
 
@@ -189,7 +192,7 @@ def routes(ctx, r, n_cases):
         route = r.choice(ROUTES)
         d = r.choice([0, 1, 2, 2, 3, 3, 4, 5, 6])
         n = d if r.random() < 0.4 else r.randint(0, 7)
-        kind = r.choice(KINDS + ("rows-list", "rows-tuple", "unsized-nd0", "unsized-npfloat"))
+        kind = r.choice(KINDS + ("rows-list", "rows-tuple", "unsized-nd0", "unsized-npfloat", "ndmasked"))
         u, c = r.choice(UC)
         try:
             built = run_route(route, d, n, kind, u, c, r)
